@@ -179,7 +179,92 @@ func c06ValidBase(r *vfRand) c06In {
 	return in
 }
 
+// c06GenSigDays: one validator, one access key, correctly signed requests whose dates cross UTC
+// midnights in every order (all inside a 96h ttl): each must be accepted whatever came before.
+func c06GenSigDays(r *vfRand) c06XIn {
+	k := c06Keys[r.Intn(3)]
+	cfg := c06Cfg{Sig: &c06SigCfg{Keys: [][2]string{k, {"other", "othersecret"}}, TTL: "96h"}}
+	x := c06XIn{Cfgs: []c06Cfg{cfg}}
+	scopes := [][]string{nil, {"svc"}}[r.Intn(2)]
+	stamps := []struct {
+		d int
+		c string
+	}{{1, "00:00:30"}, {0, "23:59:40"}, {-1, "12:00:00"}, {2, "08:00:00"}, {0, "00:00:00"}, {0, "23:59:59"}, {1, "00:00:00"}, {-1, "23:59:59"},
+		{-2, "23:59:59"}, {2, "23:59:58"}, {1, "23:59:59"}, {0, "12:34:56"}}
+	n := r.Range(4, len(stamps))
+	for i := 0; i < n; i++ { // a random order
+		j := i + r.Intn(len(stamps)-i)
+		stamps[i], stamps[j] = stamps[j], stamps[i]
+	}
+	for i := 0; i < n; i++ {
+		mode := r.PickStr("header", "header", "query")
+		pl := &c06SigPlan{Mode: mode, KeyID: k[0], Secret: k[1], Scopes: scopes, Expires: 604800, Signed: []string{"host"}, BodyAs: "actual",
+			DayOff: stamps[i].d, Clock: stamps[i].c}
+		if mode == "header" {
+			pl.Signed = append(pl.Signed, "x-me-date")
+		}
+		c := c06In{Req: c06Req{Method: "GET", Path: "/day", Host: "example.com"}, Plan: pl, JNow: 1700000000, Kind: 84}
+		if r.Chance(1, 8) { // a wrong one in between must stay wrong
+			c.Muts = []c06Mut{{Op: "tagflip", N: r.Intn(64)}}
+		}
+		x.Cases = append(x.Cases, c)
+		x.Steps = append(x.Steps, c06XStep{Inst: 0, Case: i})
+	}
+	for i := 0; i < n && i < 4; i++ { // and once more in reverse
+		x.Steps = append(x.Steps, c06XStep{Inst: 0, Case: n - 1 - i})
+	}
+	return x
+}
+
+func c06ManyUsers(n int) [][2]string {
+	us := make([][2]string, n)
+	for i := range us {
+		us[i] = [2]string{fmt.Sprintf("user%03d", i), fmt.Sprintf("pw-%03d-%d", i, i*7919%1000)}
+	}
+	return us
+}
+
+func c06BasicCase(user, pw string) c06In {
+	return c06In{JNow: 1700000000, Kind: 85, Req: c06Req{Method: "GET", Path: "/", Host: "example.com",
+		Headers: [][2]string{{"Authorization", "Basic " + base64.StdEncoding.EncodeToString([]byte(user+":"+pw))}}}}
+}
+
+// c06GenBasicMany: a user file with a few more than 64 users; everybody logs in, then earlier users
+// present the passwords of later ones (k with the password of k+64, k+1, ...), before and after a reload.
+func c06GenBasicMany(r *vfRand) c06XIn {
+	n := r.PickInt(65, 66, 67, 70, 80)
+	us := c06ManyUsers(n)
+	x := c06XIn{Cfgs: []c06Cfg{{Basic: us}}}
+	add := func(user, pw string) {
+		x.Cases = append(x.Cases, c06BasicCase(user, pw))
+		x.Steps = append(x.Steps, c06XStep{Inst: 0, Case: len(x.Cases) - 1})
+	}
+	for i := 0; i < n; i++ {
+		add(us[i][0], us[i][1])
+	}
+	for k := 0; k < n-64 && k < 6; k++ {
+		add(us[k][0], us[k+64][1])
+		add(us[k][0], us[k][1])
+		add(us[k+64][0], us[k][1])
+	}
+	for i := 0; i < 4; i++ {
+		a, b := r.Intn(n), r.Intn(n)
+		add(us[a][0], us[b][1])
+	}
+	same := c06Cfg{Basic: us}
+	x.Steps = append(x.Steps, c06XStep{Inst: 0, Reload: &same})
+	add(us[0][0], us[64][1])
+	add(us[0][0], us[0][1])
+	return x
+}
+
 func c06GenMulti(r *vfRand, adv bool) c06XIn {
+	switch k := r.Intn(12); {
+	case k == 0 || (adv && k < 4):
+		return c06GenSigDays(r)
+	case k == 1 && vfTier() == "thorough":
+		return c06GenBasicMany(r)
+	}
 	var base c06In
 	if r.Chance(2, 3) || adv {
 		base = c06ValidBase(r)
